@@ -5,6 +5,7 @@ import (
 	"encoding/json"
 	"fmt"
 	"io/ioutil"
+	"os"
 	"path/filepath"
 	"sort"
 	"strings"
@@ -486,6 +487,9 @@ func CheckC15(env *core.Env, rep *core.Report) *core.Result {
 				[]byte("import: [\".\"]\ntasks:\n  t:\n    command: [\"true\"]\n"), // the file's own directory
 				[]byte("import: [\"../\" ]\ntasks:\n  t:\n    command: [\"true\"]\n"),
 				[]byte("import: [\"cfg.yaml\", \".\", \".\"]\ntasks:\n  t:\n    command: [\"true\"]\n"),
+				// a directory one of whose files has an import of its own, the other not
+				[]byte("import: [\"sub\"]\ntasks:\n  t:\n    command: [\"true\"]\n"),
+				[]byte("import: [\"i3.yaml\", \"sub\"]\ntasks:\n  t:\n    command: [\"true\"]\n    env:\n      A: \"1\"\n"),
 				[]byte("tasks: &t\n  t: {command: [\"true\"]}\npipelines: *t\n"),
 				[]byte("a: &a [\"l\",\"l\",\"l\",\"l\",\"l\",\"l\",\"l\",\"l\",\"l\"]\nb: &b [*a,*a,*a,*a,*a,*a,*a,*a,*a]\nc: &c [*b,*b,*b,*b,*b,*b,*b,*b,*b]\nd: &d [*c,*c,*c,*c,*c,*c,*c,*c,*c]\ne: &e [*d,*d,*d,*d,*d,*d,*d,*d,*d]\nf: &f [*e,*e,*e,*e,*e,*e,*e,*e,*e]\ntasks: *f\n"),
 			)
@@ -497,6 +501,9 @@ func CheckC15(env *core.Env, rep *core.Report) *core.Result {
 			_ = ioutil.WriteFile(filepath.Join(dd, "i1.json"), []byte(`{"tasks":{"j1":{"command":["true"],"env":{"A":"1"}}}}`), 0o644)
 			_ = ioutil.WriteFile(filepath.Join(dd, "i1.toml"), []byte("[tasks.m1]\ncommand = [\"true\"]\n[tasks.m1.env]\nA = \"1\"\n"), 0o644)
 			_ = ioutil.WriteFile(filepath.Join(dd, "i2.yaml"), []byte("tasks:\n  y2:\n    command: [\"true\"]\n    env:\n      B: \"2\"\n"), 0o644)
+			_ = os.MkdirAll(filepath.Join(dd, "sub"), 0o755)
+			_ = ioutil.WriteFile(filepath.Join(dd, "sub", "a.yaml"), []byte("import: [\"../i2.yaml\"]\ntasks:\n  sa:\n    command: [\"true\"]\n    env:\n      S: \"1\"\n"), 0o644)
+			_ = ioutil.WriteFile(filepath.Join(dd, "sub", "b.yaml"), []byte("tasks:\n  sb:\n    command: [\"true\"]\n    env:\n      S: \"2\"\n"), 0o644)
 			_ = ioutil.WriteFile(filepath.Join(dd, "i3.yaml"), []byte("tasks:\n  y3:\n    command: [\"true\"]\n    env:\n      C: \"3\"\n"), 0o644)
 			for _, args := range [][]string{{"-c", f, "list"}, {"-c", f, "validate", f}, {"-c", f, "graph", "entry"}, {"-c", f, "show", "t"}} {
 				res := e.run(dd, "", 10*time.Second, args...)
